@@ -90,6 +90,46 @@ theorem componentID_injective (a b : Req) (ha : a.serviceId ≠ [] ∨ a.serverI
   simp only [Option.some.injEq, Prod.mk.injEq, and_true] at h1
   exact h1.symm
 
+/-- A request the codec is stated for: it names something, and its IDs fit a Go string. -/
+def Encodable (r : Req) : Prop :=
+  (r.serviceId ≠ [] ∨ r.serverId ≠ []) ∧ r.serviceId.length < 2 ^ 63 ∧ r.serverId.length < 2 ^ 63
+
+/-- Processing any sequence of requests, in any order: every one of them decodes back to itself
+(the codec is a function of the request alone — there is no history in the model; the engine's
+history phase and the separator-ambiguity pairs check that of the code). -/
+theorem componentIDs_roundtrip_all (rs : List Req) (h : ∀ r ∈ rs, Encodable r) :
+    (rs.map marshalComponentID).map unmarshalComponentID = rs.map (fun r => some (r, [])) := by
+  rw [List.map_map]
+  apply List.map_congr_left
+  intro r hr
+  obtain ⟨h0, h1, h2⟩ := h r hr
+  exact componentID_roundtrip r h0 h1 h2
+
+/-- Marshal is injective on every set of requests: pairwise different requests get pairwise
+different component IDs, wherever a separator character sits in their IDs. -/
+theorem componentIDs_nodup (rs : List Req) (h : ∀ r ∈ rs, Encodable r) (hd : rs.Nodup) :
+    (rs.map marshalComponentID).Nodup := by
+  induction rs with
+  | nil => simp
+  | cons a l ih =>
+    rw [List.nodup_cons] at hd
+    rw [List.map_cons, List.nodup_cons]
+    refine ⟨?_, ih (fun r hr => h r (List.mem_cons_of_mem _ hr)) hd.2⟩
+    intro hm
+    obtain ⟨b, hb, he⟩ := List.mem_map.mp hm
+    obtain ⟨a0, a1, a2⟩ := h a List.mem_cons_self
+    obtain ⟨b0, b1, b2⟩ := h b (List.mem_cons_of_mem _ hb)
+    have := componentID_injective a b a0 b0 a1 a2 b1 b2 he.symm
+    exact hd.1 (this ▸ hb)
+
+/-- The separator-ambiguity pair of the engine in small: ("b/c", "a") and ("c", "a/b") — equal
+under `server ++ "/" ++ service` — have different component IDs. -/
+example : marshalComponentID ⟨[98, 47, 99], [97]⟩ ≠ marshalComponentID ⟨[99], [97, 47, 98]⟩ := by
+  intro h
+  have := componentID_injective _ _ (Or.inl (by decide)) (Or.inl (by decide))
+    (by decide) (by decide) (by decide) (by decide) h
+  exact absurd this (by decide)
+
 /-- The one request that does not round-trip: the empty one (its component ID is the empty
 string, which base58 decoding refuses). It is not a valid request (`Validate` requires a service ID). -/
 theorem componentID_empty : marshalComponentID ⟨[], []⟩ = [] ∧ unmarshalComponentID [] = none := by
